@@ -640,6 +640,31 @@ def writeDump (s : Sys) (props : List (String × List Nat)) (u : Units) (f : Fmt
     Res (List Char) :=
   (writeDumpDoc s props u f timestep).map renderLines
 
+/-- what a system may hold as its time step (fourth round): nothing at all (`System` has no such attribute of its
+    own), `None`, an integer of any width (python int, numpy integers, 0-d integer arrays) or a real number (python
+    float, numpy floats, 0-d float arrays: elapsed time / step length is a whole number held as a float). -/
+inductive StepVal where
+  | absent | none
+  | int (i : Int)
+  | real (q : Rat)
+deriving Repr, DecidableEq
+
+/-- integer part toward zero (what C's and Python's `%i` print of a real number). -/
+def truncRat (q : Rat) : Int := if 0 ≤ q then q.floor else -((-q).floor)
+
+/-- the step the dump file names: the number itself (a whole number whatever type carries it); 0 when the system
+    has none. -/
+def StepVal.step : StepVal → Int
+  | .absent => 0
+  | .none => 0
+  | .int i => i
+  | .real q => truncRat q
+
+/-- `atom_dump.dump` of a system holding `sv` as its time step. -/
+def writeDumpStep (s : Sys) (props : List (String × List Nat)) (u : Units) (f : Fmt) (sv : StepVal) :
+    Res (List Char) :=
+  writeDump s props u f sv.step
+
 /-! ### generic table (atomman/dump/table/dump.py) -/
 
 /-- `table.dump(system, prop_name=…, unit=…, header=…)`: `a_id` is always `1..N`. -/
@@ -786,7 +811,11 @@ def lammpsDumpColumns : List (String × Option String) :=
 def genDumpColumns (cols : List Gen.AtomStyles.Col) : List (String × Option String) :=
   (cols.map fun c => c.2.1.map fun n => (n, c.2.2)).flatten
 
-/-- the unit expressions of the LAMMPS `units` manual page for the kinds that per-atom columns use. -/
+/-- the unit expressions of the LAMMPS `units` manual page for the kinds that per-atom columns use.
+    cgs: charge in statcoulombs, 1 C = 10 c statC with c = 299792458 (the number of m/s); electron: dipole moment in
+    Debye.  (Fourth round: the two cgs entries and the electron dipole used numericalunits' `c0` — a velocity in
+    working units — as if it were that number; `fix:` 41c0e70, fc85c9a.  What the strings are WORTH is the oracle's
+    business: harness `ORACLE_UNITS` evaluates the units page independently of atomman on every run.) -/
 def lammpsUnitKinds : List (String × List (String × Option String)) :=
   [("lj", [("mass", none), ("length", none), ("time", none), ("velocity", none), ("force", none), ("charge", none),
            ("dipole", none), ("density", none)]),
@@ -799,16 +828,30 @@ def lammpsUnitKinds : List (String × List (String × Option String)) :=
    ("si", [("mass", some "kg"), ("length", some "m"), ("time", some "s"), ("velocity", some "m/s"), ("force", some "N"),
            ("charge", some "C"), ("dipole", some "C*m"), ("density", some "kg/m^3")]),
    ("cgs", [("mass", some "g"), ("length", some "cm"), ("time", some "s"), ("velocity", some "cm/s"), ("force", some "dyn"),
-            ("charge", some "10*c0*C"), ("dipole", some "10*c0*C*cm"), ("density", some "g/cm^3")]),
+            ("charge", some "C/2997924580"), ("dipole", some "C*cm/2997924580"), ("density", some "g/cm^3")]),
    ("electron", [("mass", some "amu"), ("length", some "aBohr"), ("time", some "fs"),
                  ("velocity", some "2*Ry*aBohr/hbar"), ("force", some "2*Ry/aBohr"), ("charge", some "e"),
-                 ("dipole", some "1e-21/c0*C*m")]),
+                 ("dipole", some "debye")]),
    ("micro", [("mass", some "pg"), ("length", some "um"), ("time", some "us"), ("velocity", some "um/us"),
               ("force", some "pg*um/us^2"), ("charge", some "1e-12*C"), ("dipole", some "1e-12*C*um"),
               ("density", some "pg/um^3")]),
    ("nano", [("mass", some "1e-18*g"), ("length", some "nm"), ("time", some "ns"), ("velocity", some "nm/ns"),
              ("force", some "1e-18*g*nm/ns^2"), ("charge", some "e"), ("dipole", some "e*nm"),
              ("density", some "1e-18*g/nm^3")])]
+
+/-- the derived units of one regenerated `style.unit` table are COMPOSED of the style's own base entries the way
+    the quantities are defined: angular momentum = distance × velocity × mass, angular velocity = 1 / time,
+    volume = distance³ (all absent for the unit-less `lj`).  In the `electron` style velocity is not distance / time
+    (Bohr per atomic time unit next to femtoseconds): `mass*length^2/time` is a different unit there. -/
+def derivedUnitsComposed (e : String × List (String × Option String)) : Bool :=
+  let get := fun (k : String) => (e.2.find? (·.1 = k)).map (·.2)
+  match get "length", get "velocity", get "mass", get "time" with
+  | some (some l), some (some v), some (some m), some (some t) =>
+      get "ang-mom" == some (some (l ++ "*" ++ v ++ "*" ++ m)) && get "ang-vel" == some (some ("1/" ++ t))
+        && get "volume" == some (some (l ++ "^3"))
+  | some none, some none, some none, some none =>
+      get "ang-mom" == some none && get "ang-vel" == some none && get "volume" == some none
+  | _, _, _, _ => false
 
 def restrictKinds (kinds : List String) (l : List (String × Option String)) : List (String × Option String) :=
   l.filter fun e => kinds.contains e.1
